@@ -324,6 +324,12 @@ func ruleSibSwitch(c *Ctx) {
 							}
 						}
 					}
+					if !defaultFails && len(cc.Body) > 0 {
+						// the failure is recorded in an error variable and returned further
+						// down (an inlined helper): no feasible path from the default arm
+						// reaches a return whose error result can be nil
+						defaultFails = p.armOnlyFails(f, cc.Body[0])
+					}
 					continue
 				}
 				for _, e := range cc.List {
@@ -890,4 +896,70 @@ func (p *Prog) ruleQuitReply(c *Ctx) {
 	} else {
 		c.R.Violate("R-SIB/close", p.Pos(quit.Node()), quit.Name, "Quit ends Serve", "the net/rpc quit request no longer ends Serve: "+why, nil)
 	}
+}
+
+// armOnlyFails: starting at statement st, every feasible path ends in a return
+// whose last result is a certainly non-nil error (or in a panic).
+func (p *Prog) armOnlyFails(f *Func, st ast.Stmt) bool {
+	g := p.Graph(f)
+	info := f.Pkg.TypesInfo
+	for {
+		switch b := st.(type) {
+		case *ast.BlockStmt:
+			if len(b.List) > 0 {
+				st = b.List[0]
+				continue
+			}
+		case *ast.LabeledStmt:
+			st = b.Stmt
+			continue
+		}
+		break
+	}
+	start := g.NodeOf(st)
+	if start == nil {
+		return false
+	}
+	states := p.FeasibleStates(f, []*Node{start}, NewStore(), nil, nil, nil, nil)
+	sawReturn := false
+	for n, sts := range states {
+		if n == g.Exit {
+			// reaching the exit other than through a return statement (fall off the end)
+			continue
+		}
+		rs, ok := n.Ast.(*ast.ReturnStmt)
+		if !ok {
+			continue
+		}
+		sawReturn = true
+		var last ast.Expr
+		if len(rs.Results) > 0 {
+			last = rs.Results[len(rs.Results)-1]
+		} else if f.Type.Results != nil {
+			// bare return: the named error result
+			for _, fd := range f.Type.Results.List {
+				for _, nm := range fd.Names {
+					if isErrorType(info.TypeOf(nm)) {
+						last = nm
+					}
+				}
+			}
+		}
+		if last == nil || !isErrorType(info.TypeOf(last)) {
+			return false
+		}
+		if p.isNonNilExpr(f, last) {
+			continue
+		}
+		v, isV := identObj(info, ast.Unparen(last)).(*types.Var)
+		if !isV {
+			return false
+		}
+		for _, s0 := range sts {
+			if s0.Get("P:"+varKey(v)) != "NN" {
+				return false
+			}
+		}
+	}
+	return sawReturn
 }
